@@ -77,10 +77,12 @@ class BitInst:
 
 
 class Scalar:
-    """A readable leaf: ok (Bool) and value (Val)."""
+    """A readable leaf: ok (Bool) and value (Val).  `extent` = (first byte as a
+    128-bit offset from the start of the root buffer, number of bytes) of the
+    bytes that hold it (for a bits member: its container), when known."""
 
-    def __init__(self, ok, val, present=None, raw=None):
-        self.ok, self.val, self.present, self.raw = ok, val, present, raw
+    def __init__(self, ok, val, present=None, raw=None, extent=None):
+        self.ok, self.val, self.present, self.raw, self.extent = ok, val, present, raw, extent
 
 
 class Aggregate:
@@ -437,7 +439,9 @@ class Ctx:
             else:
                 raise Unsupported("byte order %r" % order)
             bits = z3.Concat(*msb) if nb > 1 else bs[0]
+            self._extent = (inst.start + start, nb)
         else:
+            self._extent = getattr(inst, "extent", None)
             o, wbits = self.const(field.location.start), self.const(field.location.size)
             if ty.has_field("size_in_bits"):
                 wbits = self.const(ty.size_in_bits)
@@ -445,7 +449,9 @@ class Ctx:
             if o + wbits > inst.nbits:
                 return Scalar(F, unknown("int"), present=F)
             bits = z3.Extract(inst.off + o + wbits - 1, inst.off + o, inst.V)
-        return self._decode(inst, field, tdef, name, is_prelude, bits, wbits, present)
+        r = self._decode(inst, field, tdef, name, is_prelude, bits, wbits, present)
+        r.extent = self._extent
+        return r
 
     def _decode(self, inst, field, tdef, name, is_prelude, bits, w, present):
         fmt_ok = T
@@ -516,6 +522,7 @@ class Ctx:
                 V = z3.Concat(*msb) if nb > 1 else bs[0]
                 ok = z3.And(loc_ok, start + I(nb) <= inst.avail)
                 sub = BitInst(self, tdef, V, c, 0, c, ok, params)
+                sub.extent = (inst.start + start, nb)
             else:
                 sub = ByteInst(self, tdef, inst.start + start, z3.If(loc_ok, avail, I(0)), loc_ok, params)
         else:
@@ -527,6 +534,7 @@ class Ctx:
                 ok = F
                 wbits = max(0, inst.nbits - o)
             sub = BitInst(self, tdef, inst.V, inst.cbits, inst.off + o, wbits, ok, params)
+            sub.extent = getattr(inst, "extent", None)
         return Aggregate(sub, loc_ok)
 
     def elem_size_units(self, inst, base):
